@@ -18,8 +18,21 @@ M == INSTANCE DurationMachine WITH
        Add <- B!Add, Sub <- B!Sub, Mul <- B!Mul, QuotT <- B!QuotT,
        DivF <- B!DivF, ModF <- B!ModF, Lt <- B!Lt, Le <- B!Le, U <- Ur
 
-(* closed-form centre of the dynamical scales: defined below (C07) *)
-DynCenterR(ts, v) == B!Sub(B!Add(v, J2000Ns), Msec(32184))
+(* The closed forms of the dynamical scales (C07), with t the seconds past J2000 in the scale itself  *)
+(* (v is that count in nanoseconds).  Constants as exact decimals:                                  *)
+(*   ET  - TAI = 32.184 s + K sin(E),  E = M + EB sin M,  M = M0 + M1 t                              *)
+(*               K = 1.657e-3 s, EB = 1.671e-2, M0 = 6.239996, M1 = 1.99096871e-7 rad/s  (NAIF LSK)  *)
+(*   TDB - TAI = 32.184 s + 0.001658 s sin(g + 0.0167 sin g),  g = 357.528 deg + 1.990910018065731e-7 rad/s t *)
+Fx == INSTANCE FixedReal
+EtM(v)  == B!Add(Fx!FxDec(<<6,2,3,9,9,9,6>>, 6), B!QuotT(B!Mul(B!FromInt(199096871), v), B!Pow10(4)))
+EtE(v)  == LET mm == EtM(v) IN B!Add(mm, Fx!FxMul(Fx!FxDec(<<1,6,7,1>>, 5), Fx!Sin(mm)))
+EtPeriodicNs(v)  == B!QuotT(B!Mul(B!FromInt(1657000), Fx!Sin(EtE(v))), Fx!S)
+TdbG(v) == B!Add(B!QuotT(B!Mul(B!FromInt(357528), Fx!Pi), B!FromInt(180000)),
+                 B!QuotT(B!Mul(B!Mk(FALSE, B!MagOfDigits(<<1,9,9,0,9,1,0,0,1,8,0,6,5,7,3,1>>)), v), B!Pow10(11)))
+TdbPeriodicNs(v) == LET g == TdbG(v) IN
+                      B!QuotT(B!Mul(B!FromInt(1658000), Fx!Sin(B!Add(g, Fx!FxMul(Fx!FxDec(<<1,6,7>>, 4), Fx!Sin(g))))), Fx!S)
+(* the TAI instant (ns since 1900-01-01 TAI) that the closed form assigns to count v of scale ts (ET = 2, TDB = 3) *)
+DynCenterR(ts, v) == B!Sub(B!Add(v, J2000Ns), B!Add(Msec(32184), IF ts = 2 THEN EtPeriodicNs(v) ELSE TdbPeriodicNs(v)))
 
 Dy == INSTANCE Dyadic
 (* a decimal literal times a unit, by the rule of C18 (used by the duration grammar) *)
